@@ -235,6 +235,19 @@ class Ctx:
     def quick(self):
         return self.tier == "quick"
 
+    def block(self, libname, key):
+        """Run one function-level building block (a tie library tools/<libname>.py with run(ctx, quick) -> coverage dict).
+        Its coverage goes to evidence coverage.building_blocks[key]; correspondence failures are appended to ctx.broken by the
+        library; returns (disagreeing inputs, failing inputs of the real code) for the caller's failing-input search."""
+        import importlib
+        t = time.time()
+        lib = importlib.import_module(libname)
+        cov = dict(lib.run(self, self.quick()))
+        dis, fi = cov.pop("disagreements", []), cov.pop("failing_inputs", [])
+        cov["disagreements"], cov["real_code_failing_inputs"], cov["wall_s"] = len(dis), len(fi), round(time.time() - t, 1)
+        self.__dict__.setdefault("blocks", {})[key] = cov
+        return dis, fi
+
     # -- reporting ---------------------------------------------------------
     def match_finding(self, case, symptom):
         """A finding matches by exact `input` (any JSON value) and `symptom` class,
@@ -352,6 +365,8 @@ class Ctx:
         }
         if "leanchecker" in self.lean:
             cov["leanchecker"] = self.lean["leanchecker"]
+        if getattr(self, "blocks", None):
+            cov["building_blocks"] = self.blocks
         if getattr(self, "escalated_from_quick", None):
             cov["escalated_from_quick"] = {"changed_anchor_files": self.escalated_from_quick,
                                            "note": "quick command, seeded sample found nothing; anchored source differs from tools/srcpins.json"}
